@@ -369,7 +369,21 @@ pub fn gen_cs(rng: &mut Rng, p: &Pool, allow_union: bool) -> CS {
                 CS::Val(gen_ops(rng, &v))
             }
         }
-        9 => CS::Text(p.texts[rng.below(p.texts.len())].clone(), rng.chance(1, 4)),
+        9 => {
+            let t = p.texts[rng.below(p.texts.len())].clone();
+            let nocase = rng.chance(1, 4);
+            // a case-insensitive reference is given in another case than the text has, non-ASCII letters included
+            let t = if nocase {
+                match rng.below(3) {
+                    0 => t.to_uppercase(),
+                    1 => t.to_lowercase(),
+                    _ => t,
+                }
+            } else {
+                t
+            };
+            CS::Text(t, nocase)
+        }
         _ => {
             let n = rng.range(2, 3);
             CS::Union((0..n).map(|_| gen_cs(rng, p, false)).collect())
@@ -569,6 +583,30 @@ fn relations(rep: &mut Report, rng: &mut Rng, store: &AnnotationStore, model: &M
         rep.eval();
         if check_panic(rep, &sec, &q, sd) {
             continue;
+        }
+        // a TEXT constraint in a later position is a filter on the text of the rows: compare with a scan of the unfiltered rows
+        if let (Type::TextSelection, CS::Text(reftext, nocase), Some(got)) = (rt, c, sec.set()) {
+            let all = guard(|| {
+                store.query(QS::new(rt, vec![CS::Limit(0, 0)]).build()).map(|it| {
+                    it.take(MAXROWS)
+                        .filter_map(|row| match row.iter().next() {
+                            Some(QueryResultItem::TextSelection(t)) => Some((vec![format!("text:{}:{}-{}", t.resource().handle().as_usize(), t.begin(), t.end())], t.text().to_string())),
+                            _ => None,
+                        })
+                        .collect::<Vec<(Row, String)>>()
+                })
+            });
+            if let Ok(Ok(all)) = all {
+                if all.len() < MAXROWS {
+                    rep.eval();
+                    rep.distinct(&format!("secondary-vs-scan/TEXT/{}", c.kind()));
+                    let expect: BTreeSet<Row> = all.into_iter().filter(|(_, text)| if *nocase { text.to_lowercase() == reftext.to_lowercase() } else { text == reftext }).map(|(r, _)| r).collect();
+                    if expect != got {
+                        let kind = if got.is_subset(&expect) { "filter-misses" } else if expect.is_subset(&got) { "filter-has-more" } else { "differs" };
+                        rep.violation(format!("C08/secondary-vs-scan/TEXT/{}/{}", c.kind(), kind), ctx(sd, &q, json!({"constraint": format!("{:?}", c), "rows_after_LIMIT_0_0_then_TEXT": got, "unfiltered_rows_whose_text_matches": expect})));
+                    }
+                }
+            }
         }
         if let (Some(a), Some(b)) = (o.set(), sec.set()) {
             rep.distinct(&format!("primary-vs-secondary/{}/{}", rtname(rt), c.kind()));
